@@ -248,7 +248,7 @@ PROPS = {
         "proof_modules": ["GrolProofs.Props.C04"],
         "theorems": ["Grol.E.C04.off_get", "Grol.E.C04.off_set", "Grol.E.C04.replay", "Grol.E.C04.store_condition",
                      "Grol.E.C04.set_get", "Grol.E.C04.get_pure"],
-        "suites": [["eval", "C04"]],
+        "suites": [["eval", "C04"], "extcache"],
         "rule": EVAL_RULE + " C04 statement: per input, output/value/error/panic are identical with the cache on and off (both register settings).",
         "trusted_base": EVAL_TB,
         "assumptions": EVAL_ASSUME,
